@@ -6,7 +6,7 @@ def seeded():
     rows = ["| change | what it does | verdict | failing obligation (first) |", "|---|---|---|---|"]
     S = os.path.join(V, "seeded")
     cnt = {}
-    for i in sorted(os.listdir(S)):
+    for i in sorted(d for d in os.listdir(S) if os.path.isdir(os.path.join(S, d))):
         m = json.load(open(os.path.join(S, i, "meta.json")))
         cr = m.get("check_result", {})
         ob = ""
@@ -55,5 +55,14 @@ for name, fn in (("SEEDED_TABLE", seeded), ("BENIGN_TABLE", benign), ("PROPERTY_
         s = s.replace(name, b + "\n" + e, 1)
     if b in s:
         s = s[:s.index(b) + len(b)] + "\n" + fn() + "\n" + s[s.index(e):]
+try:
+    rv = json.load(open(os.path.join(V, "reverts.json")))
+    cnt = {}
+    for r in rv:
+        cnt[r["verdict"]] = cnt.get(r["verdict"], 0) + 1
+    summ = ", ".join("%s %d" % kv for kv in sorted(cnt.items())) + " of %d" % len(rv)
+    s = re.sub(r"(`reverts.json`\): )(REVERTS_SUMMARY|[A-Z-]+ \d+[^.]*?of \d+)", lambda m: m.group(1) + summ, s)
+except Exception as e:
+    pass
 open(p, "w").write(s)
 print("tables regenerated")
